@@ -19,8 +19,10 @@ const int vf_tunings[][8] = {
     {0, 2, 4, 4, 1, 1, 1, 4},             /* 10 */
     {0, 6, 2, 6, 3, 3, 2, 6},             /* 11 wider panels: U-segments of length >= 4 inside a panel */
     {0, 8, 4, 16, 4, 4, 1, 8},            /* 12 */
+    {0, 2, 4, 1, 2, 2, 1, 4},             /* 13 relaxed supernodes of up to 4 columns, every other column its own supernode: lsub grows fastest */
+    {0, 3, 8, 2, 2, 2, 1, 8},             /* 14 */
 };
-const int vf_ntunings = 13;
+const int vf_ntunings = 15;
 
 /* structural rank by augmenting paths; bit (i*n+j) set <=> entry (i,j) */
 static int aug(int m, int n, uint64_t pat, int j, int *seen, int *rowmatch)
@@ -71,6 +73,15 @@ int vf_pat_bit(int m, int n, uint64_t pat, int i, int j)
 {
     if (vf_pat_gen == 0) return (int)((pat >> (i * n + j)) & 1);
     if (vf_pat_gen == 1) { int b = base_has(n, (int)(pat & 255), i, j); long dev = (long)(pat >> 8); if (dev > 0 && dev - 1 == (long)i * n + j) b = !b; return b; }
+    if (vf_pat_gen == 3) {   /* arrow-first block of order h (+) tridiagonal block, plus the first z interior off-diagonal cells of the first block stored as EXPLICIT ZEROS:
+                                they lie where the factors fill in anyway, so the structure of L and U is the same for every z while nnz(A) - and with it the
+                                initial capacity fill*nnz(A) of the factor arrays - takes consecutive values */
+        int h = (int)(pat & 255); long z = (long)(pat >> 8);
+        if (i >= h || j >= h) return (i >= h && j >= h) ? (i == j || i == j + 1 || j == i + 1) : 0;
+        if (i == j || i == 0 || j == 0) return 1;
+        long a = i - 1, b = j - 1, rank = a * (h - 1) + b - a - (b > a);
+        return rank < z;
+    }
     /* pseudo-random, diagonal kept */
     if (i == j) return 1;
     uint64_t h = pat * 0x9E3779B97F4A7C15ull + (uint64_t)(i * 131 + j) * 0xBF58476D1CE4E5B9ull; h ^= h >> 29; h *= 0x94D049BB133111EBull; h ^= h >> 32;
@@ -133,6 +144,7 @@ void make_values(const vf_type *T, int m, int n, uint64_t pat, int scheme, dmat 
         case 15: v = -(double)((i * 3 + j * 5 + 1) % 7 - 3); if (v == 0) v = -4; break;   /* V1 negated; complex: phases whose real and imaginary parts have opposite signs */
         default: v = 1.0;
         }
+        if (vf_pat_gen == 3) { int h3 = (int)(pat & 255); if (i < h3 && j < h3 && i != j && i != 0 && j != 0) v = 0.0; }   /* the extra cells of generator 3 are stored zeros */
         double _Complex z = v;
         if (T->cplx && scheme == 15) { switch ((i + 2 * j) & 3) { case 0: z = v * (0.6 - 0.8 * I); break; case 1: z = v * (-0.8 + 0.6 * I); break; case 2: z = v * (0.25 - 1.0 * I); break; default: z = v * (-I); } DM(A, i, j) = (xc)z; DZ(A, i, j) = 1; continue; }
         if (T->cplx && scheme != 0 && scheme != 13 && scheme != 14) z = v * phase(i + 2 * j);
